@@ -83,7 +83,18 @@ func runC14(t *testing.T, seed uint64, m *Mask) *Report {
 		for i := 0; i < nSess; i++ {
 			if i == 0 && redial {
 				e.Serve(B, "10.9.0.1:9000", pf)
+				// another goroutine looks at the peer's sessions while the dial is in progress: a session it can find
+				// there is one it may use
+				watching := &world.Cnt{}
+				watching.Inc()
+				simrt.GoNamed("misc", func() {
+					for k := 0; k < 60 && watching.Get() > 0; k++ {
+						A.RangeSession(func(s erpc.Session) bool { s.Health(); s.ID(); return true })
+						simrt.Yield()
+					}
+				})
 				sa, st := A.Dial("10.9.0.1:9000", pf)
+				watching.Dec()
 				if !st.OK() {
 					e.Fail("infra-dial-failed", "dial: %v", st)
 					return
@@ -180,6 +191,28 @@ func runC14(t *testing.T, seed uint64, m *Mask) *Report {
 					}
 				}
 			})
+		}
+		// plain HTTP clients of the http protocol: well-formed requests whose Content-Type is spelt in ways this
+		// process has not seen before (parameters after a known media type), on two connections at once
+		if proto == "http" {
+			for i := 0; i < 2; i++ {
+				i := i
+				ra, rb := e.Net.Pair()
+				if _, st := B.ServeConn(rb, pf); !st.OK() {
+					continue
+				}
+				running.Inc()
+				simrt.GoNamed("misc", func() {
+					defer running.Dec()
+					for j := 0; j < 3; j++ {
+						body := fmt.Sprintf("plain-http-%d-%d", i, j)
+						req := fmt.Sprintf("POST %s HTTP/1.1\r\nContent-Type: application/json; charset=utf-8; n=%x-%d-%d\r\nContent-Length: %d\r\nX-Seq: %d\r\nX-Mtype: 1\r\n\r\n%s", rtB.Blank, seed, i, j, len(body), j+1, body)
+						ra.Write([]byte(req))
+						simrt.YieldN(1 + e.Gen.Intn(4))
+					}
+				})
+			}
+			e.Probe("c14-plain-http-clients")
 		}
 		simrt.GoNamed("ender", func() {
 			simrt.YieldN(endYield)
